@@ -46,6 +46,7 @@ type step struct {
 	Fast  bool   `json:"fast,omitempty"`
 	ReqQ  int    `json:"reqq,omitempty"` // join: >0: the remote speaks the extension protocol and advertises this queue depth
 	Race  bool   `json:"race,omitempty"` // do not wait for quiescence before the next step
+	Chunks []int `json:"chunks,omitempty"` // cmd: blocks handed to the peer; cancel: blocks cancelled
 }
 
 type scenario struct {
@@ -232,6 +233,15 @@ func (s *swarm) tick() {
 	s.t.VerifPeriodicRequest(s.ctx)
 	f1, a1 := s.counters()
 	s.sc.TorLog = append(s.sc.TorLog, torEv{Kind: "request", DIF: diff(f0, f1), DAV: diff(a0, a1)})
+}
+
+func (s *swarm) listed(p *peer.Peer) bool {
+	for _, q := range s.t.VerifPeers() {
+		if q == p {
+			return true
+		}
+	}
+	return false
 }
 
 func (s *swarm) signature() string {
@@ -467,6 +477,29 @@ func (s *swarm) run() {
 			s.handle(peer.TorRequest{Index: uint32(st.Piece), Priority: int8(st.Prio), Request: false})
 		case "tick":
 			s.tick()
+		case "cmd":
+			// a decision of the scheduler, made for it: request(t, p, chunks)
+			if r := s.remotes[st.Peer]; r != nil && r.p != nil && s.listed(r.p) {
+				f0, a0 := s.counters()
+				var cs []uint32
+				for _, c := range st.Chunks {
+					if c < len(f0) {
+						cs = append(cs, uint32(c))
+					}
+				}
+				s.t.VerifRequest(r.p, cs)
+				f1, a1 := s.counters()
+				s.sc.TorLog = append(s.sc.TorLog, torEv{Kind: "command", Bits: st.Chunks, DIF: diff(f0, f1), DAV: diff(a0, a1)})
+			}
+		case "cancel":
+			if r := s.remotes[st.Peer]; r != nil && r.p != nil && s.listed(r.p) {
+				for _, c := range st.Chunks {
+					select {
+					case r.p.Event <- peer.PeerCancel{Chunk: uint32(c)}:
+					case <-r.p.Done:
+					}
+				}
+			}
 		case "serve":
 			s.serve(st)
 		case "leave":
@@ -475,6 +508,13 @@ func (s *swarm) run() {
 				r.closed = true
 				r.mu.Unlock()
 				r.e.Close()
+				if st.Mode == "wait" && r.p != nil {
+					// until the peer's main loop has exited; its goaway stays unhandled
+					select {
+					case <-r.p.Done:
+					case <-time.After(time.Second):
+					}
+				}
 			}
 		}
 		if st.Race {
@@ -568,9 +608,32 @@ func genScenario(r *rand.Rand, id int) *scenario {
 		case x < 12:
 			add(step{Op: "serve", Peer: p, N: 1 + r.Intn(6), Mode: []string{"good", "good", "good", "corrupt", "reject", "twice", "unrequested"}[r.Intn(7)], Piece: r.Intn(np)})
 		case x < 13:
-			add(step{Op: "have", Peer: p, Piece: r.Intn(np)})
+			if r.Intn(2) == 0 {
+				add(step{Op: "have", Peer: p, Piece: r.Intn(np)})
+			} else {
+				// the remote chokes while the scheduler hands it blocks: they stay queued at the
+				// peer; then somebody else delivers them
+				add(step{Op: "want", Piece: r.Intn(np), Prio: pick(r, 1, 0)})
+				add(step{Op: "choke", Peer: p, Race: true})
+				add(step{Op: "tick"})
+				q := r.Intn(npeers)
+				add(step{Op: "tick"})
+				add(step{Op: "serve", Peer: q, N: 8, Mode: "good"})
+				add(step{Op: "unwant", Piece: r.Intn(np), Prio: pick(r, 1, 0)})
+			}
 		case x < 14:
-			add(step{Op: "choke", Peer: p})
+			if r.Intn(2) == 0 {
+				add(step{Op: "choke", Peer: p})
+			} else {
+				// more blocks than the peer's pipeline takes, then some of them are cancelled
+				nch := int((sc.Total + chunkSize - 1) / chunkSize)
+				var cs []int
+				for k := 0; k < 3+r.Intn(4); k++ {
+					cs = append(cs, r.Intn(nch))
+				}
+				add(step{Op: "cmd", Peer: p, Chunks: cs, Race: r.Intn(3) == 0})
+				add(step{Op: "cancel", Peer: p, Chunks: []int{cs[len(cs)-1], cs[r.Intn(len(cs))]}})
+			}
 		case x < 15:
 			add(step{Op: "unchoke", Peer: p})
 		case x < 16:
@@ -581,7 +644,15 @@ func genScenario(r *rand.Rand, id int) *scenario {
 				if r.Intn(2) == 0 {
 					add(step{Op: "want", Piece: r.Intn(np), Prio: 1})
 				}
-				add(step{Op: "leave", Peer: p, Race: r.Intn(3) > 0})
+				lv := step{Op: "leave", Peer: p, Race: r.Intn(3) > 0}
+				if lv.Race && r.Intn(2) == 0 {
+					lv.Mode = "wait"
+				}
+				add(lv)
+				if r.Intn(2) == 0 {
+					nch := int((sc.Total + chunkSize - 1) / chunkSize)
+					add(step{Op: "cmd", Peer: p, Chunks: []int{r.Intn(nch), r.Intn(nch)}, Race: true})
+				}
 				add(step{Op: "tick", Race: r.Intn(2) == 0})
 				add(step{Op: "tick"})
 				joined[p] = false
@@ -637,6 +708,14 @@ func term(sc *scenario) string {
 			k = fmt.Sprintf("TvPeerBitmap %s %s", ints(e.Bits), cq.Bool(e.Have))
 		case "request":
 			k = "TvRequest"
+		case "command":
+			var cs []int
+			for _, c := range e.Bits {
+				if c < int((sc.Total+chunkSize-1)/chunkSize) {
+					cs = append(cs, c)
+				}
+			}
+			k = "TvCommand " + ints(cs)
 		case "goaway":
 			k = "TvGoaway"
 		default:
